@@ -59,7 +59,7 @@ S3_THOROUGH = ["1", "7", "0x1F", "2147483647"]
 S4_LITS = ["2", "7"]
 CONST_TYPES = ["int", "unsigned int", "long", "unsigned long", "long long", "unsigned long long", "short",
                "unsigned char"]
-BLOCK = 400
+BLOCK = 1000
 MODES = ("inline", "abi", "api")
 
 # expression nodes: ("L", text) | ("U", op, e) | ("B", op, l, r)
@@ -106,6 +106,15 @@ def trees_depth(lits, depth):
     return cur
 
 
+def trees_depth2_one_deep_child(lits):
+    """The trees of depth <= 2 in which a binary root has at most one binary child."""
+    d1 = trees_depth(lits, 1)
+    out = list(d1)
+    out += [("U", op, e) for op in UNOPS for e in d1]
+    out += [("B", op, a, b) for op in BINOPS for a in d1 for b in d1 if not (a[0] == "B" and b[0] == "B")]
+    return out
+
+
 def trees_binops(lits, n):
     """All trees with exactly n binary operators (no unary) over the literals."""
     if n == 0:
@@ -130,12 +139,15 @@ def families(ctx):
         atoms = [lit(t) for t in L10] + [("U", "-", lit(t)) for t in L10]
         s2 = [("B", op, a, b) for op in BINOPS for a in atoms for b in atoms]
         fam.append(("S2 all binary operations over atoms {l, -l}, l in a 10-literal subset", s2))
-        fam.append(("S3 ALL trees of depth <= 2 over literals %s" % S3_QUICK, trees_depth(S3_QUICK, 2)))
+        fam.append(("S3 all trees of depth <= 2 over literals %s except binary roots with two binary children"
+                    % S3_QUICK, trees_depth2_one_deep_child(S3_QUICK)))
     else:
         atoms = [lit(t) for t in L20] + [("U", op, lit(t)) for op in UNOPS for t in L20]
         s2 = [("B", op, a, b) for op in BINOPS for a in atoms for b in atoms]
         fam.append(("S2 all binary operations over atoms {l, -l, +l}, l in the 20 literals", s2))
-        fam.append(("S3 ALL trees of depth <= 2 over literals %s" % S3_THOROUGH, trees_depth(S3_THOROUGH, 2)))
+        fam.append(("S3 ALL trees of depth <= 2 over literals %s" % S3_QUICK, trees_depth(S3_QUICK, 2)))
+        fam.append(("S3b all trees of depth <= 2 over literals %s except binary roots with two binary children"
+                    % S3_THOROUGH, trees_depth2_one_deep_child(S3_THOROUGH)))
         s4 = []
         for n in range(4):
             s4 += trees_binops(S4_LITS, n)
@@ -461,11 +473,15 @@ def compile_api(f, name, csource, d):
     return so
 
 
-def open_mode(mode, text, tag):
-    """One FFI of the given mode over the declarations -> (ffi, lib, has_integer_const)."""
+def open_mode(mode, text, tag, reuse=None):
+    """One FFI of the given mode over the declarations -> (ffi, lib, has_integer_const).
+    `reuse`: an in-line FFI that already parsed exactly `text` (out-of-line ABI only)."""
     import cffi
-    f = cffi.FFI()
-    f.cdef(text)
+    if reuse is not None:
+        f = reuse
+    else:
+        f = cffi.FFI()
+        f.cdef(text)
     if mode == "inline":
         return f, f.dlopen(None), False
     d = os.path.join(build.scratch(), "c09")
@@ -488,19 +504,25 @@ def open_mode(mode, text, tag):
     return m.ffi, m.lib, True
 
 
-def decl_text(items):
+def decl_text(items, mode="inline"):
+    """The declarations of a block.  In API mode the array is a typedef (no generated checking
+    function per declaration: several times cheaper to compile); in the two ABI modes it is a
+    struct member (the in-line parser re-declares every typedef name on each typeof() call)."""
     out = []
     for i, t, sites in items:
         out.append("enum e%d { A_%d = %s };\n" % (i, i, t))
         if "array" in sites:
-            out.append("struct a%d { char a[%s]; char z; };\n" % (i, t))
+            if mode == "api":
+                out.append("typedef char ta%d[%s];\n" % (i, t))
+            else:
+                out.append("struct a%d { char a[%s]; char z; };\n" % (i, t))
         if "bitfield" in sites:
             out.append("struct b%d { unsigned long long f : %s; };\n" % (i, t))
     return "".join(out)
 
 
-def observe(ffi, lib, has_ic, i, sites):
-    """-> {site: observed}; a site may be observed through several accessors, all must agree."""
+def observe(ffi, lib, has_ic, i, sites, mode):
+    """-> {site: [observations]}; a site may be observed through several accessors, all must agree."""
     o = {}
     nm = "A_%d" % i
     acc = []
@@ -516,7 +538,10 @@ def observe(ffi, lib, has_ic, i, sites):
     o["enum"] = acc
     if "array" in sites:
         try:
-            ft = dict(ffi.typeof("struct a%d" % i).fields)["a"].type
+            if mode == "api":
+                ft = ffi.typeof("ta%d" % i)
+            else:
+                ft = dict(ffi.typeof("struct a%d" % i).fields)["a"].type
             o["array"] = [ft.length, ffi.sizeof(ft)]
         except Exception as e:
             o["array"] = [_err(e)]
@@ -528,32 +553,76 @@ def observe(ffi, lib, has_ic, i, sites):
     return o
 
 
-def run_mode(mode, items, want, out, tag="x"):
-    """items [(idx, text, sites)]; appends (mode, idx, site, kind, observed, expected) to out."""
-    try:
-        ffi, lib, has_ic = open_mode(mode, decl_text(items), tag)
-    except Exception as e:
-        if len(items) == 1:
-            out.append((mode, items[0][0], "all", "rejected", _err(e), None))
-            return
-        named = culprits(e, items)
-        if named and len(named) < len(items):
-            for it in items:
-                if it[0] in named:
-                    run_mode(mode, [it], want, out, tag)
-            run_mode(mode, [it for it in items if it[0] not in named], want, out, tag)
-            return
-        h = len(items) // 2
-        run_mode(mode, items[:h], want, out, tag)
-        run_mode(mode, items[h:], want, out, tag)
-        return
+def read_all(mode, ffi, lib, has_ic, items, want, out, seen=None):
     for i, t, sites in items:
-        o = observe(ffi, lib, has_ic, i, sites)
+        o = observe(ffi, lib, has_ic, i, sites, mode)
+        if seen is not None:
+            seen[i] = o
         for site, got in o.items():
             exp = want[i][site]
             if any(g != exp for g in got):
                 kind = "error" if any(isinstance(g, str) for g in got) else "value"
                 out.append((mode, i, site, kind, got, exp))
+
+
+def run_mode(mode, items, want, out, tag="x", seen=None):
+    """items [(idx, text, sites)]; appends (mode, idx, site, kind, observed, expected) to out.
+    If the declarations cannot be processed together the group is split until the
+    declaration(s) responsible are alone.  Returns the FFI when everything opened at once."""
+    try:
+        ffi, lib, has_ic = open_mode(mode, decl_text(items, mode), tag)
+    except Exception as e:
+        if len(items) == 1:
+            out.append((mode, items[0][0], "all", "rejected", _err(e), None))
+            return None
+        named = culprits(e, items) if isinstance(e, GeneratedCodeRejected) else set()
+        if named and len(named) < len(items):
+            # gcc's diagnostics are located in the code generated for these declarations
+            for it in items:
+                if it[0] in named:
+                    out.append((mode, it[0], "all", "rejected",
+                                "error:generated C does not compile: " + _diag_for(e, it[0]), None))
+            run_mode(mode, [it for it in items if it[0] not in named], want, out, tag, seen)
+            return None
+        h = len(items) // 2
+        run_mode(mode, items[:h], want, out, tag, seen)
+        run_mode(mode, items[h:], want, out, tag, seen)
+        return None
+    read_all(mode, ffi, lib, has_ic, items, want, out, seen)
+    return ffi if mode == "inline" else None
+
+
+def _diag_for(exc, i):
+    lines = str(exc).splitlines()
+    for k, ln in enumerate(lines):
+        if "error:" in ln:
+            ctx = " ".join(lines[max(0, k - 1):k + 3])
+            if i in set(int(m.group(1)) for m in _r_ident.finditer(ctx)):
+                return ln.split("error:", 1)[1].strip()[:120]
+    return "see gcc output"
+
+
+def run_abi(items, want, out, ffi_inline, seen_inline):
+    """Out-of-line ABI: emit from the very FFI that was used in-line; if that fails as a whole,
+    take apart: declarations whose in-line value already lies outside what the emitter can
+    encode are run alone, the rest together (run_mode splits further if needed)."""
+    if ffi_inline is not None:
+        try:
+            ffi, lib, has_ic = open_mode("abi", None, "x", reuse=ffi_inline)
+        except Exception:
+            pass
+        else:
+            read_all("abi", ffi, lib, has_ic, items, want, out)
+            return
+    alone, rest = [], []
+    for it in items:
+        v = seen_inline.get(it[0], {}).get("enum", [None])[0]
+        ok = isinstance(v, int) and -2 ** 63 <= v < 2 ** 64 and ("array" not in it[2] or 0 <= v < 2 ** 31)
+        (rest if ok else alone).append(it)
+    for it in alone:
+        run_mode("abi", [it], want, out)
+    if rest:
+        run_mode("abi", rest, want, out)
 
 
 def sites_for(v):
@@ -612,18 +681,10 @@ def work(job):
             raise InfraError("gcc's value of %r differs between usage sites: %r" % (txt, r))
         want[i] = {"enum": v, "array": v, "bitfield": v}
     out = []
-    run_mode("inline", items, want, out)
-    # Batching only: items cffi already gets wrong in-line may make a whole generated module
-    # unusable (negative bitfield width, enum value outside 64 bits...), so they are kept apart
-    # from the rest; run_mode() bisects whichever group still fails as a whole.
-    suspect = set(i for _, i, _, _, _, _ in out)
-    clean = [it for it in items if it[0] not in suspect]
-    susp = [it for it in items if it[0] in suspect]
-    cnt("wrong_already_inline", len(susp))
-    for mode in MODES[1:]:
-        for group in (clean, susp):
-            if group:
-                run_mode(mode, group, want, out)
+    seen = {}
+    ffi_inline = run_mode("inline", items, want, out, seen=seen)
+    run_abi(items, want, out, ffi_inline, seen)
+    run_mode("api", items, want, out)
     bad_idx = set()
     for mode, i, site, kind, got, exp in out:
         e, t, v, fl = info[i]
